@@ -52,7 +52,8 @@ TypeAt(z, u) ==
 \* i64 arithmetic on the leap table can only overflow within a few thousand seconds of the i64 ends
 I64LoCDS == WToCDS(WMinI64)
 I64HiCDS == WToCDS(WMaxI64)
-NearI64Edge(z, u) == Len(z.lp) > 0 /\ (CLt(u, CAddSec(I64LoCDS, 100000)) \/ CLt(CAddSec(I64HiCDS, -100000), u))
+\* (and only when there is a table to compare with: a zone without transitions never converts the instant)
+NearI64Edge(z, u) == Len(z.lp) > 0 /\ NTr(z) > 0 /\ (CLt(u, CAddSec(I64LoCDS, 100000)) \/ CLt(CAddSec(I64HiCDS, -100000), u))
 Lookup(z, u) == LET ta == TypeAt(z, u) IN Out(ta.types, ta.err \cup (IF NearI64Edge(z, u) THEN {"OutOfRange"} ELSE {}))
 \* localtime: zoned date-time of an instant
 Localtime(z, u, ns) ==
